@@ -37,6 +37,8 @@ pub enum Op {
     Mkdir { path: String },
     Symlink { path: String, target: String },
     Rename { from: String, to: String },
+    /// copy a file (no-op when the source is missing)
+    Copy { from: String, to: String },
     /// set mtime to this many seconds after 2020-01-01
     SetMtime { path: String, secs: i64 },
     /// touch: mtime := a fixed later instant, content unchanged
@@ -57,6 +59,7 @@ impl Op {
             Op::Mkdir { .. } => "mkdir",
             Op::Symlink { .. } => "symlink",
             Op::Rename { .. } => "rename",
+            Op::Copy { .. } => "copy",
             Op::SetMtime { .. } => "set_mtime",
             Op::Touch { .. } => "touch",
             Op::EditHeader { .. } => "edit_header",
@@ -185,6 +188,16 @@ pub fn apply_fs_op(w: &WorldDir, op: &Op) {
                 let _ = fs::create_dir_all(d);
             }
             let _ = fs::rename(w.abs(from), t);
+        }
+        Op::Copy { from, to } => {
+            if let Ok(b) = fs::read(w.abs(from)) {
+                let t = w.abs(to);
+                if let Some(d) = t.parent() {
+                    let _ = fs::create_dir_all(d);
+                }
+                let _ = fs::remove_file(&t);
+                let _ = fs::write(t, b);
+            }
         }
         Op::SetMtime { path, secs } => {
             set_mtime(&w.abs(path), EPOCH + secs, 0);
